@@ -63,4 +63,37 @@ func (rl *RateLimiter) reload(previousGeneration *RateLimiter)
   invariant[2] done-so-far: forall k int :: 0 <= k && k < idx$2 ==> rl.spec.URLs[k].rl != nil && (fresh(rl.spec.URLs[k].rl) || (exists j int :: 0 <= j && j < len(previousGeneration.spec.URLs) && rl.spec.URLs[k].rl == old(previousGeneration.spec.URLs[j].rl) && urlrule.sameRule(ref(addr(rl.spec.URLs[k].URLRule)), ref(addr(previousGeneration.spec.URLs[j].URLRule))) && samePolicy(rl.spec, previousGeneration.spec, rl.spec.URLs[k].URLRule.PolicyRef)))
   invariant[3] prev-kept: inherited != nil && fresh(inherited) && 0 <= idx$2 && idx$2 < len(rl.spec.URLs) && url == rl.spec.URLs[idx$2] && (forall k int :: 0 <= k && k < len(previousGeneration.spec.URLs) ==> previousGeneration.spec.URLs[k].rl == old(previousGeneration.spec.URLs[k].rl))
   invariant[3] done-so-far: forall k int :: 0 <= k && k < idx$2 ==> rl.spec.URLs[k].rl != nil && (fresh(rl.spec.URLs[k].rl) || (exists j int :: 0 <= j && j < len(previousGeneration.spec.URLs) && rl.spec.URLs[k].rl == old(previousGeneration.spec.URLs[j].rl) && urlrule.sameRule(ref(addr(rl.spec.URLs[k].URLRule)), ref(addr(previousGeneration.spec.URLs[j].URLRule))) && samePolicy(rl.spec, previousGeneration.spec, rl.spec.URLs[k].URLRule.PolicyRef)))
+// ---- C09: the filter consults the limiter of the first matching URL rule, and only that one ----
+ghost var gRule int      // index of the rule whose limiter was consulted (-1: none)
+ghost var gAdmitted bool
+ghost var gImposed int   // wait imposed by the limiter on the admitted request
+ghost var gTimerFired bool
+ghost var gCancelled bool
+
+pred usableLimiter(l *librl.RateLimiter) := l != nil && l.policy != nil && l.policy.LimitForPeriod >= 1 && l.policy.LimitRefreshPeriod > 0 && l.policy.TimeoutDuration >= 0
+pred reqOf(ctx *context.Context) := ptr(ctxInput(ref(ctx)), "*httpprot.Request")
+pred ruleHits(spec *Spec, k int, ctx *context.Context) := urlrule.ruleMatches(addr(spec.URLs[k].URLRule), ref(reqOf(ctx).Request))
+pred respStatus429() := ptr(outResp, "*httpprot.Response").Response.StatusCode
+
+func (rl *RateLimiter) Handle(ctx *context.Context) (result string)
+  flag allocates
+  flag frame=unchecked
+  requires rl != nil && rl.spec != nil && ctx != nil && ctxInput(ref(ctx)) != 0
+  requires limiters-created: forall k int :: 0 <= k && k < len(rl.spec.URLs) ==> rl.spec.URLs[k] != nil && usableLimiter(rl.spec.URLs[k].rl)
+  ensures unmatched-urls-are-never-limited: (forall k int :: 0 <= k && k < len(rl.spec.URLs) ==> !ruleHits(rl.spec, k, ctx)) ==> result == "" && gRule == -1
+  ensures first-matching-rule-decides: gRule >= 0 ==> gRule < len(rl.spec.URLs) && ruleHits(rl.spec, gRule, ctx) && (forall k int :: 0 <= k && k < gRule ==> !ruleHits(rl.spec, k, ctx))
+  ensures a-matching-rule-is-consulted: (exists k int :: 0 <= k && k < len(rl.spec.URLs) && ruleHits(rl.spec, k, ctx)) ==> gRule >= 0
+  ensures rejected-is-429-rateLimited: gRule >= 0 && !gAdmitted ==> result == "rateLimited" && respStatus429() == 429
+  ensures admitted-passes: gRule >= 0 && gAdmitted ==> result == ""
+  ensures imposed-wait-is-served-or-the-client-is-gone: gRule >= 0 && gAdmitted && gImposed > 0 ==> gTimerFired || gCancelled
+  ensures no-waiting-without-an-imposed-wait: gRule == -1 || !gAdmitted || gImposed <= 0 ==> !gTimerFired && !gCancelled
+  ghost at entry: gRule := -1
+  ghost at entry: gTimerFired := false
+  ghost at entry: gCancelled := false
+  ghost at call[1] AcquirePermission: gRule := idx$1
+  ghost at call[1] AcquirePermission: gAdmitted := ok
+  ghost at call[1] AcquirePermission: gImposed := wait
+  ghost at select-case[1]: gCancelled := true
+  ghost at select-case[2]: gTimerFired := true
+  invariant[1] gRule == -1 && !gTimerFired && !gCancelled && (forall k int :: 0 <= k && k < idx$1 ==> !ruleHits(rl.spec, k, ctx))
 @*/
